@@ -578,30 +578,49 @@ func checkDartEnumAndImplements(w *World, r *Result) {
 	})
 	r.cond(good, "AGR-C06i", cs.Name, "implements = exported unions of Implements, by local name", fnPos(w, cs), "one `implements` entry per exported union the struct is a member of", "the implements clause is not exactly the exported unions of typ.Implements")
 	ce := w.MustFunc("generator/dart.codeForEnum")
-	einfo := ce.Pkg.TypesInfo
-	iota := false
-	ast.Inspect(ce.Decl.Body, func(x ast.Node) bool {
-		is, ok := x.(*ast.IfStmt)
-		if !ok || !strings.HasSuffix(es(is.Cond), ".IsIota") || is.Else == nil {
-			return true
+	// wherever the two templates live (codeForEnum or a helper it calls): the positional one is reached only under
+	// IsIota, the table one only under !IsIota, and both exist
+	posOK, tabOK, nPos, nTab := true, true, 0, 0
+	for _, cf := range calleeClosure(w, ce, 2) {
+		if cf.Pkg != ce.Pkg || cf.Decl.Body == nil {
+			continue
 		}
-		thenTxt, elseTxt := "", ""
-		ast.Inspect(is.Body, func(y ast.Node) bool {
-			if lit, ok := y.(*ast.BasicLit); ok {
-				thenTxt += lit.Value
+		ast.Inspect(cf.Decl.Body, func(x ast.Node) bool {
+			lit, ok := x.(*ast.BasicLit)
+			if !ok || lit.Kind != token.STRING {
+				return true
+			}
+			positional := strings.Contains(lit.Value, ".values[i]") || strings.Contains(lit.Value, "return index")
+			table := strings.Contains(lit.Value, "_values") && strings.Contains(lit.Value, "indexOf")
+			if !positional && !table {
+				return true
+			}
+			underIota, underNotIota := false, false
+			for _, c := range pathConds(cf.Decl, lit) {
+				if c.expr != nil && strings.HasSuffix(es(c.expr), ".IsIota") {
+					if c.truth {
+						underIota = true
+					} else {
+						underNotIota = true
+					}
+				}
+			}
+			if positional && !table {
+				nPos++
+				if !underIota {
+					posOK = false
+				}
+			}
+			if table {
+				nTab++
+				if !underNotIota {
+					tabOK = false
+				}
 			}
 			return true
 		})
-		ast.Inspect(is.Else, func(y ast.Node) bool {
-			if lit, ok := y.(*ast.BasicLit); ok {
-				elseTxt += lit.Value
-			}
-			return true
-		})
-		iota = strings.Contains(thenTxt, ".values[i]") && strings.Contains(thenTxt, "return index") && strings.Contains(elseTxt, "_values") && strings.Contains(elseTxt, "indexOf")
-		_ = einfo
-		return true
-	})
+	}
+	iota := nPos > 0 && nTab > 0 && posOK && tabOK
 	r.cond(iota, "AGR-C06e", ce.Name, "index-based conversion exactly when IsIota, lookup table otherwise", fnPos(w, ce), "IsIota: values[i]/index; otherwise: _values table with indexOf", "the positional conversion is not restricted to iota-like enums (or the table branch is missing)")
 }
 
